@@ -28,7 +28,8 @@ def main():
     wt = f'/tmp/seedcheck-{os.getpid()}'
     meta = {'name': name, 'breaks_property': prop, 'checks_run': {},
             'evaluated_at_repo_head': sh('git -C /repo rev-parse --short HEAD').stdout.strip()}
-    assert sh('git -C /repo status --porcelain').stdout.strip() == '', '/repo not clean'
+    if not os.environ.get('SEED_VIA_SRC'):
+        assert sh('git -C /repo status --porcelain').stdout.strip() == '', '/repo not clean'
     sh(f'git -C /repo worktree add -q --detach {wt} HEAD')
     try:
         r = sh(f'git -C {wt} apply --3way {patch} || git -C {wt} apply {patch}')
@@ -52,10 +53,38 @@ def main():
                      and d0.returncode == 0)
         meta['confirmed'] = confirmed
         print(f'[{name}] suite ok={meta["suite_passes_with_patch"]} demo with={d1.returncode} without={d0.returncode} confirmed={confirmed}', flush=True)
+        if confirmed and os.environ.get('SEED_VIA_SRC'):
+            # /repo is busy (a background sweep uses it): point the checks at
+            # the scratch worktree with the change applied instead of
+            # patching /repo; the library under test is the same tree
+            sh(f'git -C {wt} apply /tmp/seed-{os.getpid()}.diff')
+            meta['applied_to'] = 'scratch worktree via VERIF_AUREL_SRC'
+            for cid in checks:
+                t0 = time.time()
+                extra = f'--runs {runs}' if runs else '--tier quick'
+                c = sh(f'cd {VERIF} && VERIF_AUREL_SRC={wt}/src VERIF_SEED='
+                       f'{os.environ.get("VERIF_SEED", "0")} ./vcheck {cid} {extra}')
+                sigs = [l.strip() for l in c.stdout.splitlines() if l.strip().startswith('sig=')]
+                meta['checks_run'][cid] = {
+                    'rc': c.returncode, 'wall_s': round(time.time() - t0),
+                    'violations': [l for l in c.stdout.splitlines() if l.startswith('VIOLATION')][:6],
+                    'sigs': [s.split(' ')[0] for s in sigs][:8],
+                    'first_msg': next((l.strip() for l in c.stdout.splitlines()
+                                       if l.startswith('  ') and 'sig=' not in l), '')[:400]}
+                print(f'[{name}] check {cid}: rc={c.returncode} sigs={meta["checks_run"][cid]["sigs"]}', flush=True)
     finally:
         sh(f'git -C /repo worktree remove --force {wt}')
         shutil.rmtree(wt, ignore_errors=True)
     if not meta.get('confirmed'):
+        return meta
+    if os.environ.get('SEED_VIA_SRC'):
+        realpatch = f'/tmp/seed-{os.getpid()}.diff'
+        meta['caught_by'] = sorted(c for c, v in meta['checks_run'].items() if v['rc'] == 1)
+        out = f'{VERIF}/seeded/{name}'
+        os.makedirs(out, exist_ok=True)
+        shutil.copy(realpatch, f'{out}/patch.diff')
+        shutil.copy(demo, f'{out}/demo.py')
+        os.remove(realpatch)
         return meta
     # ---- run the checks against the change applied to /repo ---------------
     realpatch = f'/tmp/seed-{os.getpid()}.diff'
